@@ -4,17 +4,20 @@ S: merge(a,b) ~ merge(b,a) for every unordered kind pair (28 harnesses, payloads
 T: merge(merge(a,b),c) ~ merge(a,merge(b,c)) for every kind triple (343 harnesses)."""
 from .. import catalog, kani, mirrun
 
-# quick tier: every triple over the kinds whose merges interact (bytes, word, dyn, conflict, any) is
-# in the thorough tier; quick runs symmetry for all pairs plus the triples containing at least two
-# of {word, bytes, dyn}, which is where every finding so far lives.
-HOT = {"word", "bytes", "dyn"}
+# Quick tier (must stay well under 15 minutes including the Kani build of its harnesses): symmetry for every pair
+# plus associativity for every triple over {bytes, word, dyn} (where all findings live) and a cross-section of
+# triples involving the constructors and `any`.  Thorough tier: all 216 triples without a conflict input.
+QUICK_EXTRA = ["any_word_word", "word_any_dyn", "word_word_any", "any_dyn_bytes", "mapping_mapping_mapping", "fixed_fixed_fixed",
+               "dyn_mapping_word", "mapping_word_mapping", "word_mapping_dyn", "fixed_word_fixed", "mapping_fixed_dyn",
+               "any_mapping_fixed", "bytes_mapping_bytes", "fixed_dyn_fixed", "word_fixed_bytes"]
 
 
 def quick_assoc():
     out = []
+    core = {"bytes", "word", "dyn"}
     for n in catalog.MERGE_ASSOC:
         ks = n[len("merge_assoc_"):].split("_")
-        if sum(1 for k in ks if k in HOT) >= 2 and len(set(ks)) >= 2:
+        if all(k in core for k in ks) or "_".join(ks) in QUICK_EXTRA:
             out.append(n)
     return out
 
@@ -120,8 +123,9 @@ def absorbing_lemma(out):
 def run(out, tier):
     out.functions += ["tc::unification::merge", "tc::expression::WordUse::merge"]
     out.bounds += ["evidence domain D of the property (see C15), kinds concrete per harness, payloads symbolic: "
-                   "ALL ordered pairs (28 unordered kind pairs x both orders) and, thorough tier, ALL 343 kind triples; "
-                   "quick tier: symmetry + the %d triples with at least two of {word, bytes, dyn}" % len(quick_assoc()),
+                   "ALL ordered pairs (28 unordered kind pairs x both orders; conflict x conflict by lemma L) and, thorough tier, "
+                   "ALL 343 kind triples (216 by Kani, the 127 with a conflict input by lemma L); "
+                   "quick tier: symmetry + %d triples (all 27 over {bytes, word, dyn} + a cross-section)" % len(quick_assoc()),
                    "outcomes compared up to conflict wording (conflict = kind only) and up to the representative "
                    "among variables equated by the emitted equalities",
                    "unwind 8 with unwinding assertions"]
@@ -132,8 +136,10 @@ def run(out, tier):
                         "Packed evidence is outside D"]
     absorbing_lemma(out)
     names = [n for n in catalog.MERGE_SYM if n_conflicts(n) <= 1]
-    names += [n for n in (catalog.MERGE_ASSOC if tier == "thorough" else quick_assoc()) if n_conflicts(n) <= 1]
-    out.assumptions.append("pairs / triples of D with two or more conflicts are decided by the absorbing lemma L (Engine B on merge's MIR) "
-                           "instead of a Kani harness: with L, both groupings of such a triple are Conflict")
+    names += [n for n in (catalog.MERGE_ASSOC if tier == "thorough" else quick_assoc()) if n_conflicts(n) == 0]
+    out.assumptions.append("triples of D containing a conflict (and the pair conflict x conflict) are decided by the absorbing lemma L "
+                           "(Engine B on merge's MIR) instead of a Kani harness: with L, both groupings of such a triple are Conflict. "
+                           "(Their Kani harnesses do not finish: an intermediate conflict meets the input conflict in "
+                           "`TypeExpression == TypeExpression`, which recurses through Vec<Box<TypeExpression>>.)")
     kani.run_family(out, names + ["merge_twin"], expect_fail=["merge_twin"], tier=tier,
-                    timeout_s=300 if tier == "quick" else 900)
+                    timeout_s=240 if tier == "quick" else 900)
